@@ -132,6 +132,173 @@ theorem log_keeps (σ : Store) (μ : Val) (lg : Logger) (l : Level) (fs : List F
   · unfold Logger.checked
     exact (checkEv_keeps σ μ l lg.core w).trans (Keeps.emit _ _)
 
+/-! ### every once-cell that `check` / `pushF` reads has been initialised by `checkEv` / `withEv`
+      (the `none` arm of `cellPairs` is unreachable) -/
+
+mutual
+/-- the cells `check σ sn l c` reads are initialised in `sn` -/
+def readsOk (σ : Store) (sn : Snap) (l : Level) : Core → Bool
+  | .leaf _ _ _ _ => true
+  | .nop => true
+  | .tee cs => readsOkAll σ sn l cs
+  | .incr c en => if en.on σ l then readsOk σ sn l c else true
+  | .hooked c _ => readsOk σ sn l c
+  | .sampler c _ pass => if !enabled σ c l then true else if inRange l && !pass then true else readsOk σ sn l c
+  | .lazy cell c _ => if !enabled σ c l then true else (sn cell).isSome && readsOk σ sn l c
+def readsOkAll (σ : Store) (sn : Snap) (l : Level) : List Core → Bool
+  | [] => true
+  | c :: cs => readsOk σ sn l c && readsOkAll σ sn l cs
+end
+
+mutual
+/-- every cell of the tree is initialised (what `pushF`, i.e. `With`, reads) -/
+def allForced (sn : Snap) : Core → Bool
+  | .leaf _ _ _ _ => true
+  | .nop => true
+  | .tee cs => allForcedAll sn cs
+  | .incr c _ => allForced sn c
+  | .hooked c _ => allForced sn c
+  | .sampler c _ _ => allForced sn c
+  | .lazy cell c _ => (sn cell).isSome && allForced sn c
+def allForcedAll (sn : Snap) : List Core → Bool
+  | [] => true
+  | c :: cs => allForced sn c && allForcedAll sn cs
+end
+
+theorem isSome_keeps {w w' : W} (hk : Keeps w w') (cell : Nat) (h : (w.snap cell).isSome = true) :
+    (w'.snap cell).isSome = true := by
+  cases hs : w.snap cell with
+  | none => simp [hs] at h
+  | some r => simp [hk cell r hs]
+
+mutual
+theorem readsOk_keeps (σ : Store) (l : Level) {w w' : W} (hk : Keeps w w') : ∀ (c : Core),
+    readsOk σ w.snap l c = true → readsOk σ w'.snap l c = true
+  | .leaf _ _ _ _, _ => by simp [readsOk]
+  | .nop, _ => by simp [readsOk]
+  | .tee cs, h => by simp only [readsOk] at h ⊢; exact readsOkAll_keeps σ l hk cs h
+  | .incr c en, h => by
+      simp only [readsOk] at h ⊢; split
+      · rename_i he; simp only [he, if_true] at h; exact readsOk_keeps σ l hk c h
+      · rfl
+  | .hooked c _, h => by simp only [readsOk] at h ⊢; exact readsOk_keeps σ l hk c h
+  | .sampler c _ p, h => by
+      simp only [readsOk] at h ⊢
+      cases he : enabled σ c l with
+      | false => simp
+      | true =>
+        cases hp : (inRange l && !p) with
+        | true => simp
+        | false =>
+          simp only [he, hp, Bool.not_true, Bool.false_eq_true, if_false] at h ⊢
+          exact readsOk_keeps σ l hk c h
+  | .lazy cell c _, h => by
+      simp only [readsOk] at h ⊢
+      cases he : enabled σ c l with
+      | false => simp
+      | true =>
+        simp only [he, Bool.not_true, Bool.false_eq_true, if_false, Bool.and_eq_true] at h ⊢
+        exact ⟨isSome_keeps hk cell h.1, readsOk_keeps σ l hk c h.2⟩
+theorem readsOkAll_keeps (σ : Store) (l : Level) {w w' : W} (hk : Keeps w w') : ∀ (cs : List Core),
+    readsOkAll σ w.snap l cs = true → readsOkAll σ w'.snap l cs = true
+  | [], _ => by simp [readsOkAll]
+  | c :: cs, h => by
+      simp only [readsOkAll, Bool.and_eq_true] at h ⊢
+      exact ⟨readsOk_keeps σ l hk c h.1, readsOkAll_keeps σ l hk cs h.2⟩
+end
+
+mutual
+theorem allForced_keeps {w w' : W} (hk : Keeps w w') : ∀ (c : Core), allForced w.snap c = true → allForced w'.snap c = true
+  | .leaf _ _ _ _, _ => by simp [allForced]
+  | .nop, _ => by simp [allForced]
+  | .tee cs, h => by simp only [allForced] at h ⊢; exact allForcedAll_keeps hk cs h
+  | .incr c _, h => by simp only [allForced] at h ⊢; exact allForced_keeps hk c h
+  | .hooked c _, h => by simp only [allForced] at h ⊢; exact allForced_keeps hk c h
+  | .sampler c _ _, h => by simp only [allForced] at h ⊢; exact allForced_keeps hk c h
+  | .lazy cell c _, h => by
+      simp only [allForced, Bool.and_eq_true] at h ⊢
+      exact ⟨isSome_keeps hk cell h.1, allForced_keeps hk c h.2⟩
+theorem allForcedAll_keeps {w w' : W} (hk : Keeps w w') : ∀ (cs : List Core),
+    allForcedAll w.snap cs = true → allForcedAll w'.snap cs = true
+  | [], _ => by simp [allForcedAll]
+  | c :: cs, h => by
+      simp only [allForcedAll, Bool.and_eq_true] at h ⊢
+      exact ⟨allForced_keeps hk c h.1, allForcedAll_keeps hk cs h.2⟩
+end
+
+mutual
+/-- `With` initialises every cell of the tree it is applied to -/
+theorem withEv_forces (μ : Val) : ∀ (c : Core) (fs : List Fld) (w : W), allForced (withEv μ c fs w).snap c = true
+  | .leaf _ _ _ _, fs, w => by simp [allForced]
+  | .nop, fs, w => by simp [allForced]
+  | .tee cs, fs, w => by simp only [withEv, allForced]; exact withEvAll_forces μ cs fs w
+  | .incr c _, fs, w => by simp only [withEv, allForced]; exact withEv_forces μ c fs w
+  | .hooked c _, fs, w => by simp only [withEv, allForced]; exact withEv_forces μ c fs w
+  | .sampler c _ _, fs, w => by simp only [withEv, allForced]; exact withEv_forces μ c fs w
+  | .lazy cell c pfs, fs, w => by
+      simp only [withEv, allForced, Bool.and_eq_true]
+      cases hs : w.snap cell with
+      | some r =>
+        simp only []
+        exact ⟨isSome_keeps (withEv_keeps μ c fs w) cell (by simp [hs]), withEv_forces μ c fs w⟩
+      | none =>
+        simp only []
+        refine ⟨isSome_keeps (withEv_keeps μ c fs _) cell (by simp [Snap.set]), withEv_forces μ c fs _⟩
+theorem withEvAll_forces (μ : Val) : ∀ (cs : List Core) (fs : List Fld) (w : W),
+    allForcedAll (withEvAll μ cs fs w).snap cs = true
+  | [], fs, w => by simp [allForcedAll]
+  | c :: cs, fs, w => by
+      simp only [withEvAll, allForcedAll, Bool.and_eq_true]
+      exact ⟨allForced_keeps (withEvAll_keeps μ cs fs _) c (withEv_forces μ c fs w), withEvAll_forces μ cs fs _⟩
+end
+
+theorem forceCell_some (μ : Val) (cell : Nat) (c : Core) (pfs : List Fld) (w : W) :
+    ((forceCell μ cell c pfs w).snap cell).isSome = true := by
+  unfold forceCell
+  cases hs : w.snap cell with
+  | some r => simp [hs]
+  | none => simp [Snap.set]
+
+mutual
+/-- `Check` initialises every cell whose fields the accepting leaves will emit -/
+theorem checkEv_reads (σ : Store) (μ : Val) (l : Level) : ∀ (c : Core) (w : W),
+    readsOk σ (checkEv σ μ l c w).snap l c = true
+  | .leaf _ _ _ _, w => by simp [readsOk]
+  | .nop, w => by simp [readsOk]
+  | .tee cs, w => by simp only [checkEv, readsOk]; exact checkEvAll_reads σ μ l cs w
+  | .incr c en, w => by
+      simp only [checkEv, readsOk]
+      split
+      · exact checkEv_reads σ μ l c w
+      · rfl
+  | .hooked c _, w => by simp only [checkEv, readsOk]; exact checkEv_reads σ μ l c w
+  | .sampler c s p, w => by
+      simp only [checkEv, readsOk]
+      split
+      · rfl
+      · rename_i h1
+        by_cases hr : inRange l = true
+        · cases p with
+          | true => simp only [hr, if_true, Bool.not_true, Bool.and_false, Bool.false_eq_true, if_false]
+                    exact checkEv_reads σ μ l c _
+          | false => simp [hr]
+        · have hr' : inRange l = false := by simpa using hr
+          simp only [hr', Bool.false_eq_true, if_false, Bool.false_and]
+          exact checkEv_reads σ μ l c w
+  | .lazy cell c pfs, w => by
+      simp only [checkEv, readsOk]
+      split
+      · rfl
+      · simp only [Bool.and_eq_true]
+        exact ⟨isSome_keeps (checkEv_keeps σ μ l c _) cell (forceCell_some μ cell c pfs w), checkEv_reads σ μ l c _⟩
+theorem checkEvAll_reads (σ : Store) (μ : Val) (l : Level) : ∀ (cs : List Core) (w : W),
+    readsOkAll σ (checkEvAll σ μ l cs w).snap l cs = true
+  | [], w => by simp [readsOkAll]
+  | c :: cs, w => by
+      simp only [checkEvAll, readsOkAll, Bool.and_eq_true]
+      exact ⟨readsOk_keeps σ l (checkEvAll_keeps σ μ l cs _) c (checkEv_reads σ μ l c w), checkEvAll_reads σ μ l cs _⟩
+end
+
 /-! ### names -/
 
 def joinDots : List (List UInt8) → List UInt8
